@@ -97,28 +97,32 @@ class Contents:
     def __init__(self) -> None:
         self.by_bytes: dict[bytes, int] = {}
         self.by_size: dict[int, int] = {}
-        self.clash: set[int] = set()
+        self.clash: set[int] = set()       # sizes shared by two initial messages
+        self.unusable: set[int] = set()    # generated ids whose size an initial message has
         for cid in range(1, 90):
             self.add(content(cid), cid)
 
     def add(self, raw: bytes, cid: int) -> None:
         for b in (raw, raw.replace(b'\r\n', b'\n')):
             self.by_bytes[b] = cid
-            if self.by_size.get(len(b), cid) != cid:
-                self.clash.add(len(b))
+            other = self.by_size.get(len(b), cid)
+            if other != cid:
+                if other < 1000 <= cid:
+                    self.unusable.add(other)
+                else:
+                    self.clash.add(len(b))
             self.by_size[len(b)] = cid
 
     def learn(self, raw: bytes) -> int:
         """initial messages (demo data) get ids from 1000"""
-        if raw in self.by_bytes:
+        if raw in self.by_bytes and self.by_bytes[raw] not in self.unusable:
             return self.by_bytes[raw]
         cid = 1000 + len({c for c in self.by_bytes.values() if c >= 1000})
         self.add(raw, cid)
         return cid
 
     def usable(self, cid: int) -> bool:
-        raw = content(cid)
-        return len(raw) not in self.clash and len(raw.replace(b'\r\n', b'\n')) not in self.clash
+        return cid not in self.unusable
 
     def of_bytes(self, raw: bytes) -> int:
         return self.by_bytes.get(raw, 5_000_000 + len(raw))
@@ -325,8 +329,9 @@ def read_response(data: bytes, contents: Contents, kind: str) -> dict:
 # -------------------------------------------------------------- environments
 NAMES = {'dict': ['INBOX', 'Sent', 'Trash', 'Nope'],
          'maildir': ['INBOX', 'Sent', 'Work', 'Nope']}
-MAILDIR_KEYWORDS = {'INBOX': [b'$kw0', b'kw1'], 'Work': [b'$kw0', b'$Forwarded', b'NonJunk'],
-                    'Sent': []}
+# one keyword table for every folder (COPY/MOVE carry the file-name letters as they are)
+MAILDIR_KEYWORDS = {'INBOX': [b'$kw0', b'kw1', b'$Forwarded'], 'Work': [b'$kw0', b'kw1', b'$Forwarded'],
+                    'Sent': [b'$kw0', b'kw1', b'$Forwarded']}
 
 
 class Env:
